@@ -1,5 +1,6 @@
 import Mkts.Model.Bytes
 import Mkts.Extracted.Facts
+import Mkts.Extracted.Skeletons
 /-!
 # Year-file header: `Header.Load` (encode), `readHeader`/`load` (decode), `NewTimeBucketInfo`
 (`utils/io/metadata.go`), core Lean only.
@@ -122,6 +123,59 @@ def newTimeBucketInfo (size : Nat → Nat) (tf : Nat) (desc : Str) (year : Nat) 
     recordType := recordType,
     recordLength := if recordType == 0 then alignedSize fieldLen + 8 else if recordType == 1 then 24 else 0,
     names := cols.map (·.1), types := cols.map (·.2) }
+
+/-! ## `TimeBucketInfo.Validate` (added by the repairs of C15-F14, F9, F1) -/
+
+def dayNs : Nat := 86400000000000
+
+/-- offset of `ElementTypes` in the header -/
+def typesOffset : Nat := 312 + maxElems * nameBytes
+
+/-- the three tests of `Validate`; each is applied iff `flags` says the source has it -/
+structure ValidateFlags where
+  count : Bool
+  names : Bool
+  daily : Bool
+deriving DecidableEq, Repr
+
+def validSchema (fl : ValidateFlags) (t : TBI) : Bool :=
+  (!fl.count || decide (t.types.length ≤ maxElems)) &&
+  (!fl.names || t.names.all (fun s => decide (s.length ≤ nameBytes) && trimNul s == s)) &&
+  (!fl.daily || !(t.recordType == 0 && t.timeframe == dayNs) ||
+    decide ((t.recordLength : Int) ≤ (headersize : Int) - typesOffset - t.types.length))
+
+def countAtom : String := "if:len(f.elementTypes) > maxNumElements{"
+def namesAtom : String :=
+  "if:len(name) > elementNameHeaderBytes || string(bytes.Trim([]byte(name), \"\\x00\")) != name{"
+def dailyAtom : String :=
+  "if:f.recordType == FIXED && f.timeframe == utils.Day && int(f.recordLength) > Headersize - elementTypesOffset - len(f.elementTypes){"
+
+def hasSub : List String → List String → Bool
+  | [], pat => pat.isEmpty
+  | a :: l, pat => pat.isPrefixOf (a :: l) || hasSub l pat
+
+/-- `AddTimeBucket` calls `f.Validate()` and returns its error before it makes anything -/
+def addCallsInfoValidate : Bool :=
+  let sk := Mkts.Extracted.Skel.catalog_Directory_AddTimeBucket
+  hasSub sk ["call:f.Validate", "if:err != nil{", "return", "}"] &&
+  (sk.takeWhile (· != "call:f.Validate")).all (fun a =>
+    !["call:filepath.Join", "call:os.Mkdir", "call:writeCategoryNameFile", "call:newTimeBucketInfoFromTemplate"].contains a)
+
+/-- which tests the CURRENT source performs before a bucket is created (regenerated skeletons of
+    `TimeBucketInfo.Validate` and `AddTimeBucket`); all `false` = the code before the repairs -/
+def codeFlags : ValidateFlags :=
+  let sk := Mkts.Extracted.Skel.utils_io_TimeBucketInfo_Validate
+  let rej (atom : String) : Bool := addCallsInfoValidate && hasSub sk [atom, "call:fmt.Errorf", "return", "}"]
+  ⟨rej countAtom, rej namesAtom, rej dailyAtom⟩
+
+/-- does the source have a `Validate` method at all (harness prints `V=-` otherwise) -/
+def hasInfoValidate : Bool := !Mkts.Extracted.Skel.utils_io_TimeBucketInfo_Validate.isEmpty
+
+/-- the flags of `Validate` itself (function level: independent of who calls it) -/
+def methodFlags : ValidateFlags :=
+  let sk := Mkts.Extracted.Skel.utils_io_TimeBucketInfo_Validate
+  let rej (atom : String) : Bool := hasSub sk [atom, "call:fmt.Errorf", "return", "}"]
+  ⟨rej countAtom, rej namesAtom, rej dailyAtom⟩
 
 /-- overwrite `b` at `off` with `w` (a `pwrite` inside the existing extent) -/
 def overwrite (b : Bytes) (off : Nat) (w : Bytes) : Bytes :=
